@@ -782,7 +782,7 @@ if __name__ == "__main__":
     import translate_c18
     common.run_check(
         "C18", module="Bermuda.Properties.C18", driver_targets=["drv_c18"],
-        correspondence=correspondence, level="translation_validation",
+        correspondence=correspondence, level="proof",
         extra_translate=translate_c18.regenerate,
         rule="four streams: (currency) 1-4 slices over {USD,EUR,GBP,CAD,'',None} x three cell classes x scalar/array "
              "values x dyadic/int rate tables incl. missing currency / missing rate; (disagg) semi-regular triangles with "
@@ -807,7 +807,12 @@ if __name__ == "__main__":
                      "not collide after conversion (distinct class/coordinates/metadata-up-to-currency); disagg_spec_bridge "
                      "needs Spec.C18.disaggWF (per slice: resolution L a multiple of res, L-month periods starting on the "
                      "first of a month from 1970 on, no repeated cell, disjoint periods at equal evaluation dates) - "
-                     "evaluated by the driver on every applicable case (histogram key disagg/wf...)",
+                     "evaluated by the driver on every applicable case (histogram key disagg/wf...); aggregate_disagg "
+                     "(aggBackSpec true on the model's aggregate(disaggregate(t))) needs disaggWF with one period resolution L "
+                     "in all slices, a canonical triangle with canonical metadata, aggregate called with (L, 'month'), no "
+                     "evaluation resolution and a month-end origin on whose L-grid all period starts lie (the harness passes "
+                     "first period_start - 1 day), and every selected field present summarised as 'sum of itself' "
+                     "(all of DEFAULT_INTERPOLATION_FIELDS: defaultFields_rules; summarize_premium=True)",
                      "theorem hypotheses: value dicts have distinct keys (Python dicts); policyYear_conserves needs the "
                      "share-table contract (Spec.C18.policyCovered: every accident period's normalised row sums to 1, "
                      "evaluated by the driver on every case) and one shape per field within a slice (UniformShapes)",
